@@ -14,6 +14,13 @@
  *   FCSHIM_AT2 / FCSHIM_ERRNO2   optional second failing event
  *   FCSHIM_EMULATE_CLONE=1       emulate ioctl(FICLONE) by copying (file systems without reflink)
  *
+ *   FCSHIM_TFAIL=<tag>:<j>:<errno>[:persist]   multi-threaded runs, where global numbers mean nothing: the j-th
+ *                   mutating event whose path or path2 contains <tag> fails with errno; with "persist" every later
+ *                   mutating event of the same call name fails too (a full disk stays full)
+ *   FCSHIM_THOLD=<tag>:<j>[:<quiet_ms>[:<max_ms>]]   the thread that COMPLETED the j-th mutating event containing <tag>
+ *                   is suspended until the other threads have logged something and then nothing for quiet_ms (default 120; at most max_ms,
+ *                   default 4000): the other workers run to completion while this one sits between two of its steps
+ *
  * fail : event k returns failure with errno, the real call is not made.
  * kill : the process SIGKILLs itself immediately before executing event k.
  * pause: the process SIGSTOPs itself immediately before executing event k (the orchestrator
@@ -68,6 +75,26 @@ static pthread_mutex_t mu = PTHREAD_MUTEX_INITIALIZER;
 static char *fd_path[MAXFD];
 static int fd_write[MAXFD];
 
+/* tagged fault / hold (see FCSHIM_TFAIL, FCSHIM_THOLD) */
+static char tf_tag[256], th_tag[256], tf_call[32];
+static long tf_j = -1, th_j = -1, tf_count = 0, th_count = 0, th_quiet_ms = 120, th_max_ms = 4000;
+static int tf_errno = 0, tf_persist = 0, tf_fired = 0;
+static long long last_event_ns = 0;
+static long m_events = 0;
+static int hold_started = 0;
+static __thread const char *cur_call = NULL, *cur_p1 = NULL, *cur_p2 = NULL;
+#define SET_CUR(c, a, b) do { cur_call = (c); cur_p1 = (a); cur_p2 = (b); } while (0)
+
+static long long now_ns(void) {
+    struct timespec ts;
+    syscall(SYS_clock_gettime, CLOCK_MONOTONIC, &ts);
+    return (long long)ts.tv_sec * 1000000000LL + ts.tv_nsec;
+}
+
+static int has_tag(const char *tag, const char *a, const char *b) {
+    return tag[0] && ((a && strstr(a, tag)) || (b && strstr(b, tag)));
+}
+
 static void init(void);
 
 #define REAL(ret, name, ...)                                   \
@@ -120,6 +147,27 @@ static long event_begin(char cls, int *fail_errno) {
     if (!active) return -1;
     if ((cls == 'm' && !cls_m) || (cls == 'r' && !cls_r) || (cls == 'c' && !cls_c) || (cls == 'p' && !cls_p)) return -1;
     long k = __atomic_fetch_add(&counter, 1, __ATOMIC_SEQ_CST);
+    if (cls == 'm' && tf_tag[0] && cur_call) {
+        if (has_tag(tf_tag, cur_p1, cur_p2)) {
+            long j = __atomic_fetch_add(&tf_count, 1, __ATOMIC_SEQ_CST);
+            if (j == tf_j) {
+                /* ordered after the suspension of the other worker (if one is requested): the failure happens
+                 * while that worker sits between two of its steps */
+                if (th_tag[0]) {
+                    long long t0 = now_ns();
+                    while (!__atomic_load_n(&hold_started, __ATOMIC_SEQ_CST) && now_ns() - t0 < 1500 * 1000000LL) {
+                        struct timespec d = {0, 2 * 1000000};
+                        syscall(SYS_nanosleep, &d, NULL);
+                    }
+                }
+                *fail_errno = tf_errno;
+                snprintf(tf_call, sizeof tf_call, "%s", cur_call);
+                __atomic_store_n(&tf_fired, 1, __ATOMIC_SEQ_CST);
+            }
+        }
+        if (!*fail_errno && tf_persist && __atomic_load_n(&tf_fired, __ATOMIC_SEQ_CST) && !strcmp(cur_call, tf_call))
+            *fail_errno = tf_errno;
+    }
     if (mode != M_RECORD && (k == at1 || k == at2)) {
         if (mode == M_KILL) {
             const char *msg = "#KILL\n";
@@ -151,6 +199,30 @@ static void event_end(long k, char cls, const char *call, const char *p1, const 
     pthread_mutex_lock(&mu);
     raw_write(log_fd, line, l);
     pthread_mutex_unlock(&mu);
+    if (cls == 'm') {
+        __atomic_store_n(&last_event_ns, now_ns(), __ATOMIC_SEQ_CST);
+        __atomic_fetch_add(&m_events, 1, __ATOMIC_SEQ_CST);
+        if (th_tag[0] && has_tag(th_tag, p1, p2)) {
+            long j = __atomic_fetch_add(&th_count, 1, __ATOMIC_SEQ_CST);
+            if (j == th_j) {
+                const char *msg = "#HOLD\n";
+                raw_write(log_fd, msg, strlen(msg));
+                __atomic_store_n(&hold_started, 1, __ATOMIC_SEQ_CST);
+                long long t0 = now_ns();
+                long seen0 = __atomic_load_n(&m_events, __ATOMIC_SEQ_CST);
+                for (;;) {
+                    struct timespec d = {0, 5 * 1000000};
+                    syscall(SYS_nanosleep, &d, NULL);
+                    long long t = now_ns();
+                    /* the others have done something since, and have been silent for quiet_ms: they are through */
+                    if (__atomic_load_n(&m_events, __ATOMIC_SEQ_CST) > seen0 &&
+                        t - __atomic_load_n(&last_event_ns, __ATOMIC_SEQ_CST) > th_quiet_ms * 1000000LL) break;
+                    if (t - t0 > th_max_ms * 1000000LL) break;
+                }
+            }
+        }
+    }
+    cur_call = NULL;
 }
 
 /* number of descriptors currently open on paths under the roots, and its maximum (reported as #MAXOPEN at exit) */
@@ -219,6 +291,20 @@ __attribute__((constructor)) static void init(void) {
     if (getenv("FCSHIM_READ_DELAY_US")) read_delay_us = atol(getenv("FCSHIM_READ_DELAY_US"));
     if (getenv("FCSHIM_FAKE_NOFILE_HARD")) fake_nofile_hard = atoi(getenv("FCSHIM_FAKE_NOFILE_HARD"));
     if (getenv("FCSHIM_SETRLIMIT_ERRNO")) setrlimit_errno = atoi(getenv("FCSHIM_SETRLIMIT_ERRNO"));
+    const char *tf = getenv("FCSHIM_TFAIL");
+    if (tf) {
+        char *c2 = strdup(tf), *sv = NULL;
+        char *a = strtok_r(c2, ":", &sv), *b = strtok_r(NULL, ":", &sv), *e = strtok_r(NULL, ":", &sv), *pz = strtok_r(NULL, ":", &sv);
+        if (a && b && e) { snprintf(tf_tag, sizeof tf_tag, "%s", a); tf_j = atol(b); tf_errno = atoi(e); tf_persist = pz != NULL; }
+    }
+    const char *th = getenv("FCSHIM_THOLD");
+    if (th) {
+        char *c2 = strdup(th), *sv = NULL;
+        char *a = strtok_r(c2, ":", &sv), *b = strtok_r(NULL, ":", &sv), *q = strtok_r(NULL, ":", &sv), *mx = strtok_r(NULL, ":", &sv);
+        if (a && b) { snprintf(th_tag, sizeof th_tag, "%s", a); th_j = atol(b); }
+        if (q) th_quiet_ms = atol(q);
+        if (mx) th_max_ms = atol(mx);
+    }
     const char *lg = getenv("FCSHIM_LOG");
     if (lg) log_fd = (int)syscall(SYS_openat, AT_FDCWD, lg, O_WRONLY | O_CREAT | O_APPEND | O_CLOEXEC, 0644);
     active = 1;
@@ -229,6 +315,7 @@ __attribute__((constructor)) static void init(void) {
 #define PATH_CALL_INT(cls, callname, p1, p2, info, realcall)                        \
     do {                                                                            \
         int fe;                                                                     \
+        SET_CUR(callname, p1, p2);                                                  \
         long k = under_root(p1) || under_root(p2) ? event_begin(cls, &fe) : (fe = 0, -1); \
         if (fe) {                                                                   \
             event_end(k, cls, callname, p1, p2, info, -1, fe);                      \
@@ -282,6 +369,7 @@ int symlink(const char *target, const char *linkpath) {
     /* path = the link that is created, path2 = its target text (not a path that is touched) */
     do {
         int fe;
+        SET_CUR("symlink", p2, NULL);
         long k = under_root(p2) ? event_begin('m', &fe) : (fe = 0, -1);
         if (fe) { event_end(k, 'm', "symlink", p2, target, "", -1, fe); errno = fe; return -1; }
         long r_ = real_symlink(target, linkpath);
@@ -414,6 +502,7 @@ static int do_open(const char *callname, int dirfd, const char *path, int flags,
     snprintf(info, sizeof info, "%s%s%s%s", writable ? "w" : "r", (flags & O_CREAT) ? ",creat" : "",
              (flags & O_TRUNC) ? ",trunc" : "", (flags & O_DIRECTORY) ? ",dir" : "");
     int fe = 0;
+    SET_CUR(callname, p1, NULL);
     long k = under_root(p1) ? event_begin(cls, &fe) : -1;
     if (fe) {
         event_end(k, cls, callname, p1, NULL, info, -1, fe);
@@ -515,6 +604,7 @@ ssize_t write(int fd, const void *buf, size_t n) {
     const char *p1 = path_of_fd(fd);
     if (!p1) return real_write(fd, buf, n);
     int fe;
+    SET_CUR("write", p1, NULL);
     long k = event_begin('m', &fe);
     if (fe) { event_end(k, 'm', "write", p1, NULL, "", -1, fe); errno = fe; return -1; }
     ssize_t r = real_write(fd, buf, n);
@@ -530,6 +620,7 @@ ssize_t copy_file_range(int fin, off64_t *oin, int fout, off64_t *oout, size_t l
     const char *p1 = path_of_fd(fout), *p2 = path_of_fd(fin);
     if (!p1 && !p2) return real_copy_file_range(fin, oin, fout, oout, len, flags);
     int fe;
+    SET_CUR("copy_file_range", p1, p2);
     long k = event_begin('m', &fe);
     if (fe) { event_end(k, 'm', "copy_file_range", p1, p2, "", -1, fe); errno = fe; return -1; }
     ssize_t r = real_copy_file_range(fin, oin, fout, oout, len, flags);
@@ -545,6 +636,7 @@ ssize_t sendfile64(int fout, int fin, off64_t *off, size_t len) {
     const char *p1 = path_of_fd(fout), *p2 = path_of_fd(fin);
     if (!p1 && !p2) return real_sendfile64(fout, fin, off, len);
     int fe;
+    SET_CUR("sendfile", p1, p2);
     long k = event_begin('m', &fe);
     if (fe) { event_end(k, 'm', "sendfile", p1, p2, "", -1, fe); errno = fe; return -1; }
     ssize_t r = real_sendfile64(fout, fin, off, len);
@@ -714,6 +806,7 @@ int ioctl(int fd, unsigned long req, ...) {
     const char *name = req == FICLONE ? "ficlone" : "fiemap";
     const char *p2 = req == FICLONE ? path_of_fd((int)(long)arg) : NULL;
     int fe;
+    SET_CUR(name, p1, p2);
     long k = event_begin(cls, &fe);
     if (fe) { event_end(k, cls, name, p1, p2, "", -1, fe); errno = fe; return -1; }
     int r;
